@@ -437,4 +437,35 @@ def run (c : Cfg) (img : NodeImage) (s : State) : List Op → State
   | [] => s
   | op :: ops => run c img (step c img s op).1 ops
 
+/-! ## size-level view of a request (blocks far too large to be listed byte by byte, e.g. 2^32 + 16 bytes)
+
+What the detector asks of the platform, what `node->init` records, and where `storeLeakInformation`
+puts the guard bytes and the inline node — the same regenerated expressions as above, without the
+byte list.  The driver replays the harness' `balloc / brealloc / bfree` operations with it. -/
+
+/-- what the assignment `size_ = size` in `MemoryLeakDetectorNode::init` keeps of a `size_t` value:
+    the declared type of the field (regenerated: `nodeSizeFieldType`, `nodeSizeFieldBits`) -/
+def storedSize (size : W) : W := (size.setWidth nodeSizeFieldBits).setWidth 64
+
+structure Plan where
+  req      : W            -- bytes asked of `alloc_memory` / `PlatformSpecificRealloc`
+  recSize  : W            -- `node->size_`
+  guardOff : Nat          -- offset of the guard bytes: `node->memory_ + node->size_`
+  nodeAt   : Option Nat   -- offset of the inline node (`none`: the node has a block of its own)
+deriving Repr, DecidableEq, Inhabited
+
+def planOf (c : Cfg) (sep : Bool) (req size : W) : Plan :=
+  { req := req, recSize := storedSize size, guardOff := (storedSize size).toNat,
+    nodeAt := if sep then none else some (nodeOff c size).toNat }
+
+/-- `allocMemory`: `none` = rejected by the overflow guard -/
+def allocPlan (c : Cfg) (size : W) (sep0 : Bool) : Option Plan :=
+  if rejectsAlloc c size then none
+  else some (planOf c (forcedSep c sep0) (allocReq c (forcedSep c sep0) size) size)
+
+/-- `reallocMemory` -/
+def reallocPlan (c : Cfg) (size : W) (sep0 : Bool) : Option Plan :=
+  if rejectsRealloc c size then none
+  else some (planOf c (forcedSep c sep0) (reallocReq c (forcedSep c sep0) size) size)
+
 end AllocLayout
